@@ -13,6 +13,7 @@ Layering (DESIGN §4 C15):
 -/
 import Dawgs.Proofs.C15
 import Dawgs.Proofs.C15Tarjan
+import Dawgs.Proofs.C15Lift
 namespace Dawgs.C15.Props
 open Dawgs.C15 Dawgs.C16
 
@@ -224,6 +225,29 @@ theorem c15_full_refuted : ¬ C15_full := by
   rw [e1 h1 h2] at h3
   cases h3
 
+/-- **C15 for the repaired code, per certified graph**: if Tarjan's output for `g` passes the verified certificate
+checker (every check run evaluates exactly this on every case), then for EVERY capacity and EVERY sequence of
+public calls (CanReach / ReachOf… / ReachSliceOf… / OrReach / XorReach, all three directions, members and
+non-members) the repaired ReachabilityCache returns, and every answer is what plain BFS on the original graph gives.
+(Chain: certificate ⇒ SCC decomposition; Tarjan's member map = `compIndexOf`; component-graph reachability =
+original-graph reachability of members; bidirectional BFS and repaired DFS exact and terminating.) -/
+theorem c15_fixed_of_certificate (g : Digraph) (hw : g.WF) (comps : List (List Nat)) (lk : List (Nat × Nat))
+    (ht : tarjan g = some (comps, lk)) (hcert : checkSCC g comps = true) (cap : Int) (ops : List Op) :
+    ∃ rc answers, RC.new g cap true = some rc ∧ rc.runOps ops = some answers ∧ acceptsAll g ops answers = true := by
+  have hc : Cert g comps lk := ⟨hw, checkSCC_sound hcert, tarjan_lookup comps lk ht⟩
+  have hnew : RC.new g cap true = some (freshRC (componentGraphOf g comps lk) cap true) := by
+    simp [RC.new, newComponentGraph, ht, freshRC]
+  obtain ⟨answers, hr, ha⟩ := runOps_correct hc (freshRC (componentGraphOf g comps lk) cap true) rfl rfl
+    ⟨sieveExact_new _ cap, sieveExact_new _ cap⟩ ops
+  exact ⟨_, answers, hnew, hr, ha⟩
+
+/-- The whole of C15 for the repaired code reduces to the one stated goal that is not proved yet
+(`tarjan_correct_full`): nothing else is assumed. -/
+theorem c15_fixed_of_tarjan (ht : tarjan_correct_full) : C15_stmt true := by
+  intro g hw
+  obtain ⟨comps, lk, h1, h2⟩ := ht g hw
+  exact ⟨⟨comps, lk, h1, checkSCC_sound h2⟩, fun cap ops => c15_fixed_of_certificate g hw comps lk h1 h2 cap ops⟩
+
 /-! ### non-vacuity -/
 
 -- the certificate checker accepts Tarjan's output on a graph with a 3-cycle, a bridge, a 2-cycle, a self loop
@@ -249,6 +273,9 @@ example : answerAfter diamondCG 8 true [(3, .outb)] 2 .outb = some 7 ∧ answerA
   decide
 example : ((RC.new f5Graph 8 true).bind (fun rc => rc.runOps [.reach 0 .outb, .reach 2 .outb])) =
     some [.set [0, 1, 2, 3], .set [1, 2, 3]] := by decide
+-- the certificate hypothesis of `c15_fixed_of_certificate` holds on the F5 graph and on the demo graph
+example : (tarjan f5Graph).map (fun p => checkSCC f5Graph p.1) = some true ∧
+    (tarjan demoGraph).map (fun p => checkSCC demoGraph p.1) = some true := by decide
 -- the acceptance predicate is not trivially true
 example : accepts f5Graph (.reach 2 .outb) (.set [1, 2]) = false ∧ accepts f5Graph (.reach 2 .outb) (.set [1, 2, 3]) = true ∧
     accepts f5Graph (.canReach 2 3 .outb) (.bool false) = false := by decide
